@@ -6,7 +6,7 @@ import os
 import time
 
 from vf import env, tlc, core, world
-from vf.tlaval import parse_state, parse_value, to_py
+from vf.tlaval import parse_value, to_py
 
 META = dict(
     property_id="C32", level="model_checking", design_ref="DESIGN.md §4 C32",
@@ -142,6 +142,7 @@ def rev_meta(rev):
 
 
 FIX = None
+TCP_PATHS = 40
 # TLC -continue reports the FIRST violated invariant of a state: most specific witnesses first
 WITNESSES = ("WitnessCommitOnSide", "WitnessNestedLock", "WitnessPendingConfig", "WitnessGhostTag", "WitnessTagConflict",
              "WitnessDiverged", "WitnessOffMainline")
@@ -161,6 +162,8 @@ class Session:
         self.backing.mkdir("t")
         fx.template.copy_tree_to_transport(self.backing.clone("t"))
         self.media = []
+        self.tcp = None
+        self.tcp_transports = []
         self.b = self.open()
         self.b2 = None
         self.token = None
@@ -173,6 +176,19 @@ class Session:
         from breezy import branch as B
         if self.mode == "local":
             return B.Branch.open(self.base + "t")
+        if self.mode == "tcp":
+            # a real SmartTCPServer on the loopback interface, served by its own thread
+            from breezy import transport as T
+            from breezy.bzr.smart import server as S
+            if self.tcp is None:
+                self.tcp = S.SmartTCPServer(self.backing, client_timeout=30.0)
+                self.tcp._ACCEPT_TIMEOUT = 0.05
+                self.tcp.start_server("127.0.0.1", 0)
+                self.tcp.start_background_thread("-c32")
+            t = T.get_transport_from_url(self.tcp.get_url())
+            self.tcp_transports.append(t)
+            self.media.append(t.get_smart_medium())
+            return B.Branch.open_from_transport(t.clone("t"))
         rt, m = world.inproc_remote_transport(self.backing)
         self.media.append(m)
         return B.Branch.open_from_transport(rt.clone("t"))
@@ -188,6 +204,13 @@ class Session:
                     o.unlock()
                 except Exception:
                     break
+        for t in self.tcp_transports:
+            try:
+                t.disconnect()
+            except Exception:
+                pass
+        if self.tcp is not None:
+            self.tcp.stop_background_thread()
         for s in self.scratch:
             s.stop_server()
         self.srv.stop_server()
@@ -360,6 +383,15 @@ class Session:
 
     # ---- what a fresh local open of the backing transport shows
     def disk(self):
+        try:
+            return self._disk()
+        except Exception:
+            # the stored branch cannot even be read: every field "unknown" (never equal to a specified projection
+            # nor - because of the step's other fields - silently equal to the other access path's)
+            return {"tip": UNKNOWN, "revno": UNKNOWN, "t1": UNKNOWN, "t2": UNKNOWN, "revs": [], "trees": [],
+                    "cfg": UNKNOWN, "blocked": UNKNOWN, "rlocked": UNKNOWN, "extra": 97}
+
+    def _disk(self):
         from breezy import branch as B
         f = B.Branch.open(self.base + "t")
         extra = 0
@@ -383,14 +415,14 @@ class Session:
                 "cfg": cfg, "blocked": blocked, "rlocked": rlocked, "extra": extra}
 
 
-def replay(fx, acts, mode):
+def replay_run(fx, acts, mode):
     """[[err, val, disk], ...] of one behaviour through one access path."""
     novfs = mode == "novfs"
     if novfs:
         os.environ["BRZ_NO_SMART_VFS"] = "1"
     else:
         os.environ.pop("BRZ_NO_SMART_VFS", None)
-    s = Session(fx, "local" if mode == "local" else "remote")
+    s = Session(fx, mode if mode in ("local", "tcp") else "remote")
     steps = []
     try:
         for a in acts:
@@ -400,15 +432,11 @@ def replay(fx, acts, mode):
             if novfs:
                 os.environ["BRZ_NO_SMART_VFS"] = "1"
         proto = sorted({m._protocol_version for m in s.media if m._protocol_version is not None})
-        reqs = sum(m.requests for m in s.media)
+        reqs = sum(getattr(m, "requests", 1) for m in s.media)
     finally:
         s.close()
         os.environ.pop("BRZ_NO_SMART_VFS", None)
     return steps, proto, reqs
-
-
-def act_name(a):
-    return a[0]
 
 
 def first_difference(acts, ref, other):
@@ -429,7 +457,7 @@ def replay_paths(sub, chunk):
         runs = {}
         nreq = 0
         for mode in modes:
-            steps, proto, reqs = replay(fx, acts, mode)
+            steps, proto, reqs = replay_run(fx, acts, mode)
             runs[mode] = steps
             if mode != "local":
                 if proto != [3]:
@@ -441,7 +469,7 @@ def replay_paths(sub, chunk):
             d = first_difference(acts, runs["local"], runs[mode])
             if d is not None:
                 k, what, detail = d
-                op = act_name(acts[k]) if k < len(acts) else "-"
+                op = acts[k][0] if k < len(acts) else "-"
                 sub.violation("%s-differ:%s:%s:%s" % (what, op, mode, detail),
                               "step %d %s through bzr:// (%s) %s: local %s, remote %s" % (
                                   k + 1, acts[k], mode, what, runs["local"][k][:2] if what == "returns" else runs["local"][k][2],
@@ -458,9 +486,6 @@ def replay_paths(sub, chunk):
 
 
 # ----------------------------------------------------------------------------- paths through TLC's graph
-_lab = None
-
-
 def parse_action(label):
     """'Op(<<"pull", "A", 1>>)' -> ["pull", "A", 1]"""
     inner = label[label.index("(") + 1:label.rindex(")")]
@@ -527,8 +552,13 @@ def graph_paths(ctx, vfs, maxlen, max_len):
                                          label="MC + graph Vfs=%s MaxLen=%d" % (vfs, maxlen), timeout=1500)
     if not edges or len(inits) != 1:
         ctx.machinery("empty state graph")
-    paths = cover(nodes, sorted(set(edges)), inits, ctx.rng, max_len)
-    ctx.cov.setdefault("graphs", []).append({"vfs": vfs, "max_ops": maxlen, "nodes": len(nodes), "edges": len(set(edges)),
+    # TLC's node ids are fingerprints under a randomly chosen polynomial: name the nodes by their state instead, so that
+    # the cover (and the seeded sample of it) is the same in every run
+    canon = {nid: k for k, (nid, lab) in enumerate(sorted(nodes.items(), key=lambda kv: kv[1]))}
+    edges = sorted({(canon[a], act, canon[b]) for a, act, b in edges})
+    inits = [canon[x] for x in inits]
+    paths = cover(nodes, edges, inits, ctx.rng, max_len)
+    ctx.cov.setdefault("graphs", []).append({"vfs": vfs, "max_ops": maxlen, "nodes": len(nodes), "edges": len(edges),
                                              "cover_paths": len(paths)})
     return [[parse_action(e[1]) for e in p] for p in paths]
 
@@ -578,7 +608,7 @@ def judge(ctx, rows, chunk=400):
     return bad
 
 
-def run(ctx):
+def setup(ctx):
     global FIX
     env.init()
     import breezy.tests  # noqa: F401  (BranchBuilder)
@@ -586,6 +616,21 @@ def run(ctx):
     lockdir._DEFAULT_TIMEOUT_SECONDS = 0          # a contended lock_write fails at once (client and server side)
     os.environ.pop("BRZ_NO_SMART_VFS", None)
     FIX = Fixture(ctx)
+
+
+def replay(ctx, rep):
+    """./check C32 --replay FILE: run the recorded behaviour again on the local path and through the recorded mode."""
+    setup(ctx)
+    r = rep["replay"]
+    acts = [list(a) for a in r["acts"]]
+    replay_paths(ctx, [(acts, ["local", r["mode"]])])
+    for k, a in enumerate(acts):
+        rows = ctx.cov["_collect"][0]["runs"]
+        print("%2d %-22s local %-40s %s %s" % (k + 1, a, rows[0][1][k][:2], r["mode"], rows[1][1][k][:2]))
+
+
+def run(ctx):
+    setup(ctx)
     maxlen = 4 if ctx.quick else 5
     # anti-vacuity: one TLC run (-continue) must violate every witness invariant
     res = tlc.run(ctx, "BranchOpsMC", cfg_text=model_cfg(True, 3, ctx.quick, invariants=WITNESSES), workers=1,
@@ -594,9 +639,17 @@ def run(ctx):
     if missing:
         ctx.machinery("vacuity guard: TLC did not reach %s" % missing)
     ctx.add_tlc(res, "witnesses " + " ".join(WITNESSES))
+    # the operations BranchOps!VfsOps declares VFS-only: what a server without VFS verbs answers to them (informational;
+    # one that works there could move out of VfsOps)
+    obs = {}
+    for a in (["commit"], ["pull", "A", 0], ["pushout"]):
+        obs[a[0]] = replay_run(FIX, [a], "novfs")[0][0][0]
+        if obs[a[0]] == "":
+            ctx.drift("%s works without VFS verbs but BranchOps!VfsOps lists it" % a[0], {"op": a})
+    ctx.cov["vfs_only_ops_without_vfs"] = obs
     full = graph_paths(ctx, True, maxlen, 16)
     nov = graph_paths(ctx, False, maxlen, 16)
-    budget = 150 if ctx.quick else 3000
+    budget = 300 if ctx.quick else 3000
     jobs = []
     for paths, modes, share in ((full, ["local", "vfs"], 0.6), (nov, ["local", "vfs", "novfs"], 0.4)):
         k = min(len(paths), int(budget * share))
@@ -605,6 +658,11 @@ def run(ctx):
             if "novfs" not in m and not any(a[0] in VFS_OPS for a in p):
                 m.append("novfs")
             jobs.append((p, m))
+    if not ctx.quick:
+        # cross-check of the in-process medium: some behaviours also through a real SmartTCPServer on loopback
+        for j in range(min(TCP_PATHS, len(jobs))):
+            jobs[j] = (jobs[j][0], jobs[j][1] + ["tcp"])
+        ctx.cov["tcp_paths"] = min(TCP_PATHS, len(jobs))
     ctx.cov["replayed_paths"] = len(jobs)
     ctx.cov["exhaustive"] = len(jobs) == len(full) + len(nov)
     core.fork_map(ctx, replay_paths, jobs)
